@@ -131,10 +131,7 @@ fn restart_history(h: &[usize], alpha: &Alphabet, cfgs: &[Cfg], dir: &str) -> (u
     (n, vs)
 }
 
-fn restart_part(rep: &mut Report, cfgs: &[Cfg], thorough: bool) -> (u64, u64) {
-    let alpha = restart_alphabet(cfgs, thorough);
-    let depth = if thorough { 4 } else { 3 };
-    let n = alpha.ops.len();
+fn all_histories(n: usize, depth: usize) -> Vec<Vec<usize>> {
     let mut hs: Vec<Vec<usize>> = vec![vec![]];
     for _ in 0..depth {
         let mut next = Vec::with_capacity(hs.len() * n);
@@ -147,6 +144,10 @@ fn restart_part(rep: &mut Report, cfgs: &[Cfg], thorough: bool) -> (u64, u64) {
         }
         hs = next;
     }
+    hs
+}
+
+fn run_restart_histories(rep: &mut Report, hs: &[Vec<usize>], alpha: &Alphabet, cfgs: &[Cfg]) -> u64 {
     let total: AtomicU64 = AtomicU64::new(0);
     let viols: Vec<Vec<Violation>> = hs
         .par_chunks(256)
@@ -154,7 +155,7 @@ fn restart_part(rep: &mut Report, cfgs: &[Cfg], thorough: bool) -> (u64, u64) {
             let dir = scratch_dir();
             let mut out = vec![];
             for h in chunk {
-                let (k, vs) = restart_history(h, &alpha, cfgs, &dir);
+                let (k, vs) = restart_history(h, alpha, cfgs, &dir);
                 total.fetch_add(k, Ordering::Relaxed);
                 if out.len() < 5 {
                     out.extend(vs);
@@ -170,7 +171,34 @@ fn restart_part(rep: &mut Report, cfgs: &[Cfg], thorough: bool) -> (u64, u64) {
             rep.violation(v);
         }
     }
-    (hs.len() as u64, total.load(Ordering::Relaxed))
+    total.load(Ordering::Relaxed)
+}
+
+fn restart_part(rep: &mut Report, cfgs: &[Cfg], thorough: bool) -> (u64, u64) {
+    // wide and shallow: the full restart alphabet to depth 3 (thorough 4)
+    let alpha = restart_alphabet(cfgs, thorough);
+    let hs = all_histories(alpha.ops.len(), if thorough { 4 } else { 3 });
+    let mut steps = run_restart_histories(rep, &hs, &alpha, cfgs);
+    let mut n = hs.len() as u64;
+    // narrow and deep: one single-address pool, two clients, plain DISCOVERs and two clock steps,
+    // to depth 8 (thorough 10).  State the Pool object accumulates over a longer life (a memo that is
+    // never invalidated, a counter) needs histories of this length before it disagrees with a
+    // freshly opened server, and only a handful of operations to get there.
+    let narrow = Alphabet {
+        ops: build_alphabet(cfgs, &AlphabetSpec { cfgs: &["K5"], clients: 2, addrs: &[], ticks: &[150, 301] })
+            .ops
+            .into_iter()
+            .filter(|o| match o {
+                Op::Tick(_) => true,
+                Op::Msg(m) => m.mtype == 1 && m.req.is_none() && m.lease_req.is_none() && m.serverid.is_none(),
+            })
+            .collect(),
+    };
+    let hs2 = all_histories(narrow.ops.len(), if thorough { 10 } else { 8 });
+    steps += run_restart_histories(rep, &hs2, &narrow, cfgs);
+    n += hs2.len() as u64;
+    rep.cov("restart_narrow_deep", json!({"alphabet_ops": narrow.ops.len(), "depth": if thorough { 10 } else { 8 }, "histories": hs2.len()}));
+    (n, steps)
 }
 
 // ---------------------------------------------------------------------------
@@ -673,7 +701,7 @@ pub fn run(tier: &str, replay: Option<Value>) -> ! {
     classes.insert("restart".into());
     rep.cov("evaluations", steps + up_n + kills);
     rep.cov("distinct_nontrivial", classes.len() as u64);
-    rep.cov("rule", "restart: every history of length 3 (thorough 4) over the alphabet on a long-lived file-backed Pool, at every message the same message on a Pool reopened on a copy of the file (replies and rows must agree); upgrade: v0 databases (0-3 rows: clientid empty/1/255 octets, chaddr NULL or not, start/expiry in {0, now-1, now, now+1, 2^32-1}) x 3 schema_version variants, reopened twice; versions 2, 3, 2^31, 2^63-1 refused and logically unchanged; kill: for each history a child process dies before every write-class libc call SQLite issues (pwrite64, write, fdatasync, fsync, ftruncate, unlink), then the file is reopened and judged. distinct = (part, phase, syscall kind, outcome) classes");
+    rep.cov("rule", "restart: every history of length 3 (thorough 4) over the alphabet, and every history of length 8 (thorough 10) over a narrow one (a single-address pool, 2 clients, plain DISCOVER, clock +150/+301 s), on a long-lived file-backed Pool, at every message the same message on a Pool reopened on a copy of the file (replies and rows must agree); upgrade: v0 databases (0-3 rows: clientid empty/1/255 octets, chaddr NULL or not, start/expiry in {0, now-1, now, now+1, 2^32-1}) x 3 schema_version variants, reopened twice; versions 2, 3, 2^31, 2^63-1 refused and logically unchanged; kill: for each history a child process dies before every write-class libc call SQLite issues (pwrite64, write, fdatasync, fsync, ftruncate, unlink), then the file is reopened and judged. distinct = (part, phase, syscall kind, outcome) classes");
     rep.cov("exhaustive", true);
     rep.cov("parts", json!({"restart_histories": hists, "restart_differential_steps": steps, "upgrade_databases": up_n, "kill_points": kills}));
     rep.cov("classes", json!(classes));
